@@ -141,6 +141,19 @@ def long_idn_domains(nums=()):
                 out.append(body[:max(n - len(tail), 1)] + tail)
     return out
 
+def row_bitflips(names, bits=(0x20, 0x80, 0x40, 0x10)):
+    """every table row with one bit of one octet flipped (0x20: what a home-made case folding or-s / and-s away; 0x80: a high bit a 7-bit compare
+    drops; 0x40, 0x10: neighbours) — kept when the result is not the same name in another letter case"""
+    out = []
+    for r in names:
+        for i in range(len(r)):
+            for b in bits:
+                c = r[i] ^ b
+                if c == 0: continue
+                v = r[:i] + bytes([c]) + r[i + 1:]
+                if v.lower() != r.lower(): out.append(v)
+    return out
+
 def name_of_length(p, short=False):
     """a valid host name (no root dot) of exactly p octets: 63-octet labels, or 1-octet labels when short"""
     if p <= 0: return b''
@@ -255,8 +268,28 @@ UTF8_CONTEXTS = [(b'', b''), (b'a', b'b'), (b'a.', b'.b'), (b'"', b'"'), (b'"\\'
                  (b'', b'"q"'), (b'a.', b'"q"'), (b'"q"', b''), (b'.', b''), (b'', b'.'), (b'\xd0\xb0', b'\xd0\xb1'),
                  (b'"\\\\', b'"')]
 
-def utf8_lines(thorough=False):
+def low_byte_twins():
+    """non-ASCII characters whose code point has, as its low byte, an ASCII character the scanners treat specially (. " \\ @ SP # ^ ` { | } ~ ( ) ...):
+    a decoded value squeezed into a char, or compared after masking, takes them for that character.  Four planes each: U+01xx, U+04xx, U+4Exx, U+1F6xx."""
     out = []
+    for c in b'."\\@ #^`{|}~()<>[]:;,-_!%&*+/=?\'$\t\r\n\x01\x7f0aA':
+        for base in (0x100, 0x400, 0x4e00, 0x1f600, 0xff00, 0x10000, 0x20000, 0xf0000, 0x100000):      # low 8 bits, and low 16 bits, equal to the character
+            cp = base + c
+            if 0xd800 <= cp <= 0xdfff: continue
+            out.append(chr(cp).encode('utf-8'))
+    return out
+
+def low_byte_twin_lines():
+    out = []
+    for u in low_byte_twins():
+        for pre, post in UTF8_CONTEXTS:
+            out.append('L %s -' % hx(pre + u + post))
+        for pre, post in ((b'a', b'"b"'), (b'"a', b' b"'), (b'"a ', b'b"'), (b'a.', b'"b"'), (b'', b'.'), (b'.', b'')):
+            out.append('L %s -' % hx(pre + u + post))
+    return out
+
+def utf8_lines(thorough=False):
+    out = low_byte_twin_lines()
     for u in utf8_candidates(thorough):
         if 0 in u:
             continue
